@@ -12,6 +12,7 @@ schema:  `S h<name> <hasNT> <h<nodetype>|-> <n> (h<propname> <kind>)*n`     (cla
         | `sub <h<n>|-> <cls> <opt> <container> <skipEmpty> <dispatch> <-|val>` | `subList h<n> <cls> <container> <dispatch>`
         | `raw <h<sub>|-> <ext|any|anyList> <opt>`
          `T <reg> h<qname> <cls>`
+implied: `I <cls> <member index> h<py>`   (the answer of `r` is `ok <stored value> | <value read through the public attributes>`)
 codec:   `cx h<conv> h<py> h<lex>` | `cp h<conv> h<lex> <h<py>|!>` | `now h<py>`
 ops:     `w <cls> <tag> <val>` -> `ok <xml>` | `err`     `r <cls> <xml>` -> `ok <val>` | `err`     `t <cls> <val>` -> `wt` | `nwt`
    val = `n` | `a h<py>` | `l <n> <val>*n` | `o <cls> <n> <val>*n` | `r <n> <xml>*n`
@@ -265,6 +266,7 @@ structure DSt where
   cx : List ((String × String) × String) := []        -- (conv, py) -> lexical
   cp : List ((String × String) × Option String) := [] -- (conv, lexical) -> py
   now : String := ""
+  implied : Implied := []
 
 def isWs (c : Char) : Bool := c == ' ' || c == '\t' || c == '\n' || c == '\r'
 
@@ -306,6 +308,9 @@ def stepLine (st : DSt) (line : String) : DSt × String :=
   | ["now", p] => match unhex p with
     | some p => ({ st with now := p }, "ok")
     | none => (st, "bad-op")
+  | ["I", c, k, v] => match c.toNat?, k.toNat?, unhex v with
+    | some c, some k, some v => ({ st with implied := (c, k, v) :: st.implied }, "ok")
+    | _, _, _ => (st, "bad-op")
   | ["resetcodec"] => ({ st with cx := [], cp := [] }, "ok")
   | "w" :: c :: tag :: r => match c.toNat?, tag.toNat?, pVal f r with
     | some c, some tag, some (.obj c' fs, []) =>
@@ -319,7 +324,7 @@ def stepLine (st : DSt) (line : String) : DSt × String :=
     | _, _ => (st, "bad-op")
   | "r" :: c :: r => match c.toNat?, pXml f r with
     | some c, some (x, []) => match readCls st.codec st.S f c x with
-      | some v => (st, "ok " ++ dVal v)
+      | some v => (st, "ok " ++ dVal v ++ " | " ++ dVal (publicVal st.implied v))
       | none => (st, "err")
     | _, _ => (st, "bad-op")
   | _ => (st, "bad-op")
